@@ -1,6 +1,7 @@
 SPECIFICATION Spec
 CONSTANTS MaxOuts = 0
  MaxLines = 0
+ Candidates = FALSE
  Timeouts = TRUE
  TwoSteps = FALSE
  Export = TRUE
